@@ -26,6 +26,13 @@ set_option maxRecDepth 1000000 in
 theorem witness_per8_ext2 : proveThenVerify Inst.toy descPer8 tracePer8 optsW3 = true := by
   decide +kernel
 
+set_option maxRecDepth 1000000 in
+/-- an AUXILIARY SEGMENT: running product over one random element (auxiliary random elements, `build_aux_trace`,
+    second trace commitment, auxiliary constraint and assertion in the composition, auxiliary column in the OOD
+    frame and the DEEP composition, second batch opening) -/
+theorem witness_aux8 : proveThenVerifyG Inst.toy descAux8 gensAux8 traceAux8 optsW1 = true := by
+  decide +kernel
+
 /-- the instances in the form of the completeness statement -/
 theorem witnesses_accept :
     (∃ bs, refProve Inst.toy descSq8 traceSq8 optsW1 = .ok bs ∧
